@@ -45,6 +45,8 @@ def tasks(tier, seed):
         P += V + families.corpus(["lorentz.ode", "beeler_reuter_1977.ode"])
     else:
         P += V + families.corpus()
+    from .. import gen
+    P += gen.programs(tier, seed, 120, 1500, "std") + gen.programs(tier, seed, 60, 600, "full")
     return [dict(p, opts={}) for p in P] + witness_tasks(PROP)
 
 
